@@ -89,7 +89,7 @@ def parse_case_text(text):
             cur['main'] = split_cmds(ws[2:])
         elif ws[0] == 'cf':
             cur['wrap'].append(('cf', [int(ws[1]), int(ws[2])], [int(x) for x in ws[4:]]))
-        elif ws[0] in ('adc', 'adb'):
+        elif ws[0] in ('adc', 'adb', 'ads'):
             cur['wrap'].append((ws[0], [], [int(x) for x in ws[2:]]))
     return cases
 
@@ -180,6 +180,9 @@ class Gen:
             case['wrap'].append(('cf', [m, r.below(m)], [r.range(0, 200) for _ in range(r.range(1, 12))]))
         case['wrap'].append(('adc', [], [r.pick([r.range(0, 255), r.range(256, 70000), 255, 256, 511, 65535, 65536]) for _ in range(2 * r.range(1, 6))]))
         case['wrap'].append(('adb', [], [r.range(0, 100000) for _ in range(2 * r.range(1, 6))]))
+        # a movable class type passed by non-const lvalue reference, adapted to by-value listeners: every listener
+        # and the caller must still see the dispatched value
+        case['wrap'].append(('ads', [], [r.range(0, 100000) for _ in range(2 * r.range(1, 5))]))
         self.stat('wrap_case')
         return case
 
@@ -209,7 +212,7 @@ class Gen:
 
 def nontrivial(case, trace):
     if case.get('wrap') and not case['main']:
-        return sum(1 for l in trace if l.startswith(('cfrun', 'adrun', 'adbrun'))) >= 2
+        return sum(1 for l in trace if l.startswith(('cfrun', 'adrun', 'adbrun', 'adsrun'))) >= 2
     return (sum(1 for l in trace if l.startswith('filter')) >= 1 and sum(1 for l in trace if l.startswith('call')) >= 1)
 
 
